@@ -139,6 +139,75 @@ example : gate natOps t₀ [(0, 10), (0, 50)] [a₀] [3] false = .error .length 
 #guard within floatOps (0.0, 1.0) (0.0 / 0.0) == false
 #guard within floatOps (0.0, 1.0) 1.0 && within floatOps (0.0, 1.0) 0.0
 
+/-! ## NaN: an unordered value never passes the gate
+
+The only facts about IEEE doubles used: every `<=` / `<` with a NaN operand is false. For *any* value
+type with an element `nan` obeying these two laws (for `Float`: `floatOps` and `0.0 / 0.0`, the law
+itself being IEEE 754, tested by the `#guard`s above and exercised by generated NaN vectors), a vector
+holding `nan` at any position is rejected with the prior-limit exception, and a comparison assertion
+with a `nan` operand is false. -/
+
+/-- `le`/`lt` treat `nan` as unordered -/
+structure NanLaw (ops : Ops V) (nan : V) : Prop where
+  le_left : ∀ x, ops.le nan x = false
+  le_right : ∀ x, ops.le x nan = false
+  lt_left : ∀ x, ops.lt nan x = false
+  lt_right : ∀ x, ops.lt x nan = false
+
+theorem within_nan (ops : Ops V) (nan : V) (h : NanLaw ops nan) (l : V × V) : within ops l nan = false := by
+  simp [within, h.le_left, h.le_right]
+
+theorem limitsOk_nan (ops : Ops V) (nan : V) (h : NanLaw ops nan) : ∀ (lims : List (V × V)) (v : List V),
+    lims.length = v.length → nan ∈ v → limitsOk ops lims v = false
+  | [], [], _, hm => by simp at hm
+  | [], _ :: _, hl, _ => by simp at hl
+  | _ :: _, [], hl, _ => by simp at hl
+  | l :: ls, x :: xs, hl, hm => by
+    simp only [limitsOk]
+    rcases List.mem_cons.mp hm with rfl | hm
+    · simp [within_nan ops _ h]
+    · simp [limitsOk_nan ops nan h ls xs (by simpa using hl) hm]
+
+/-- **a vector holding NaN anywhere is rejected** (with the prior-limit exception, before any
+assertion is looked at) unless the caller asked to ignore limits -/
+theorem gate_rejects_nan (ops : Ops V) (nan : V) (h : NanLaw ops nan) (t : Node V) (lims : List (V × V))
+    (asserts : List (Asrt V)) (v : List V) (hl : v.length = count t) (hlim : lims.length = v.length)
+    (hm : nan ∈ v) : gate ops t lims asserts v false = .error .priorLimit :=
+  gate_limit_error ops t lims asserts v hl (limitsOk_nan ops nan h lims v hlim hm)
+
+/-- a comparison one of whose operands evaluates to NaN is false (so the fit exception is raised when
+limits are wide enough to let the NaN arise from arithmetic on in-limit values) -/
+theorem evalA_nan_operand (ops : Ops V) (nan : V) (h : NanLaw ops nan) (ρ : Nat → Inst V) (strict : Bool)
+    (l g : Node V) (hn : operandVal ops ρ l = some nan ∨ operandVal ops ρ g = some nan) :
+    evalA ops ρ (.cmp strict l g) = false := by
+  unfold evalA
+  rcases hn with hn | hn
+  · rw [hn]
+    cases hg : operandVal ops ρ g with
+    | none => rfl
+    | some b => cases strict <;> simp [h.le_left, h.lt_left]
+  · rw [hn]
+    cases hl : operandVal ops ρ l with
+    | none => rfl
+    | some a => cases strict <;> simp [h.le_right, h.lt_right]
+
+/-- non-vacuity: numbers with one unordered element -/
+def optOps : Ops (Option Nat) where
+  bin := fun _ a b => match a, b with | some x, some y => some (x + y) | _, _ => none
+  un := fun _ a => a
+  nameLe := fun a b => decide (a ≤ b)
+  lt := fun a b => match a, b with | some x, some y => decide (x < y) | _, _ => false
+  le := fun a b => match a, b with | some x, some y => decide (x ≤ y) | _, _ => false
+
+theorem optOps_nanLaw : NanLaw optOps none :=
+  ⟨fun _ => rfl, fun x => by cases x <;> rfl, fun _ => rfl, fun x => by cases x <;> rfl⟩
+
+def tOpt : Node (Option Nat) := .coll [("g", .model "P2" ["a", "b"] [("a", .prior 5), ("b", .prior 2)])]
+example : gate optOps tOpt [(some 0, some 10), (some 0, some 50)] [] [some 3, none] false = .error .priorLimit :=
+  gate_rejects_nan optOps none optOps_nanLaw tOpt _ [] _ rfl rfl (by simp)
+example : gate optOps tOpt [(some 0, some 10), (some 0, some 50)] [] [some 3, some 7] false
+    = .ok (instFromVector optOps tOpt [some 3, some 7]) := by rfl
+
 end AF.C03
 
 namespace AF.C03
